@@ -300,6 +300,9 @@ def split_model(st, s, sep):
         start = Add(idx, seplen)
     facts.append(Eq(Gt(SeqLen(sp), intlit(SPLIT_K)), prev_ok))
     # every part is a str
+    k = tm.bvar(fresh_name('spk'), INT)
+    facts.append(tm.Forall([k], Implies(And(Le(intlit(0), k), Lt(k, SeqLen(sp))), Is('VStr', SeqNth(sp, k))),
+                           patterns=[(SeqNth(sp, k),)]))
     return st.assume(And(*facts)), sp
 
 
@@ -323,6 +326,8 @@ def m_split(ex, s, args, kw, st, node):
             raise Unsupported('split with non-literal separator at line %s' % node.lineno)
         o, sp = split_model(ok, s, sep)
         if o is not None:
+            ex._str_seqs = getattr(ex, '_str_seqs', set())
+            ex._str_seqs.add(sp)          # every element is a str (stated as a fact by split_model)
             outs.append((o, ex.new_list_from_seq(sp, o)))
     return outs
 
